@@ -346,7 +346,12 @@ void destroy_dw(int d) {
   S->dw[d] = nullptr;
   g_activity = ACT_NONE;
 }
-void copy_dw(int dst, int src) { S->dw[dst] = new deathwatched<Dwt>(*S->dw[src]); }
+void copy_dw(int dst, int src, bool from_const) {
+  // from a const lvalue the implicit copy constructor is chosen (member-wise copy, including the
+  // object's monitor slot); from a non-const lvalue the forwarding constructor template wins
+  if (from_const) S->dw[dst] = new deathwatched<Dwt>(static_cast<deathwatched<Dwt> const&>(*S->dw[src]));
+  else S->dw[dst] = new deathwatched<Dwt>(*S->dw[src]);
+}
 void move_dw(int dst, int src) { S->dw[dst] = new deathwatched<Dwt>(std::move(*S->dw[src])); }
 void assign_dw(int dst, int src, bool move) {
   if (move) *S->dw[dst] = std::move(*S->dw[src]);
